@@ -125,7 +125,7 @@ _KEEP_WORDS = {"return", "const", "static", "final", "public", "private", "class
 def normalize_code_line(line: str) -> str:
     line = re.sub(r'"(?:[^"\\]|\\.)*"', '""', line.strip())
     line = re.sub(r"[A-Za-z_][A-Za-z0-9_]*", lambda m: m.group(0) if m.group(0) in _KEEP_WORDS else "x", line)
-    line = re.sub(r"\d+", "0", line)
+    line = re.sub(r"\d+(\.\d+)?", "0", line)
     return re.sub(r"\s+", " ", line)[:48]
 
 
@@ -199,11 +199,10 @@ def check_target_output(target: str, root: pathlib.Path, cpp_level: int, scratch
 
 
 def first_per_file(diags: List[Diag]) -> List[Diag]:
+    """The first diagnostic of every file in the order of the tool's output (later ones are cascades)."""
     best = {}  # type: Dict[str, Diag]
     for dg in diags:
-        prev = best.get(dg.file)
-        if prev is None or (dg.line or 10 ** 9) < (prev.line or 10 ** 9):
-            best[dg.file] = dg
+        best.setdefault(dg.file, dg)
     return [best[k] for k in sorted(best)]
 
 
